@@ -266,9 +266,17 @@ func decodeABIDynamicArrayBytes(ctx context.Context, breadcrumbs string, block [
 	}
 	dataOffset += 32
 	dataStart := dataOffset
+	// The element count comes from the data being decoded, so it must not size the allocation.
+	// Reserve no more than the remaining data could hold (any element with a non-empty encoding
+	// occupies at least one 32 byte word in the head of the array), and let the slice grow as
+	// the elements are actually decoded.
+	capacity := arrayLength
+	if maxElements := (len(block) - dataOffset) / 32; capacity > maxElements {
+		capacity = maxElements
+	}
 	cv = &ComponentValue{
 		Component: component,
-		Children:  make([]*ComponentValue, arrayLength),
+		Children:  make([]*ComponentValue, 0, capacity),
 	}
 	for i := 0; i < arrayLength; i++ {
 		childHeadBytes, child, err := decodeABIElement(ctx, fmt.Sprintf("%s[dyn,i:%d,b:%d]", breadcrumbs, i, dataOffset),
@@ -276,7 +284,7 @@ func decodeABIDynamicArrayBytes(ctx context.Context, breadcrumbs string, block [
 		if err != nil {
 			return nil, err
 		}
-		cv.Children[i] = child
+		cv.Children = append(cv.Children, child)
 		dataOffset += childHeadBytes
 	}
 	return cv, err
